@@ -192,6 +192,21 @@ CLAIMED = {
             'longer than three dates follow only by the per-date independence of the loop body (not proved by induction); CSV text '
             'parsing and SQLite are bounded / trusted',
             'contract-based deductive verification (AST->z3) + bounded import stand-in', 'DESIGN 2 C13'),
+    'C02': ('other',
+            'Container layer on the real Container / Trajectory / FieldSet code over symbolic size, capacity and buffer contents: append '
+            'extends the view by exactly the point (also across capacity expansion), make_point(idx) is the idx-th point of the view, '
+            'phase counters. Builder layer on the real code: LegacyContext.__init__ altitudes and refusals; _start_point; the climb, '
+            'cruise and descent loops by inductive invariants for any number of points (dry mass constant, mass / fuel non-increasing, '
+            'time / distance non-decreasing and non-negative, position = track point at the recorded distance, altitude order per phase, '
+            'never above cruise level or ceiling, exact point counts, end altitudes; a phase stops only by rejecting the mission); '
+            'fly_climb / fly_descent arguments; _fly_iteration phase order and residual; fly() reports the first point\'s mass and fuel '
+            'for any number of mass iterations; calc_starting_mass; GroundTrack location / step (shared with C15); interpolate_time '
+            'against the np.interp contract for any number of points and query times. One known finding (tied hand-over times). '
+            'Bounded part: sample missions flown natively with four option sets.',
+            'performance model, weather and Geod by assumed contracts; floats as reals (so "all values finite" means no undefined '
+            'operation: division by zero, sqrt of a negative); FieldMetadata.convert_in assumed identity on floats; a failed loop '
+            'invariant is reported as a violation only when the native flights reproduce a broken rule, otherwise undecided',
+            'contract-based deductive verification with loop invariants (AST->z3) + bounded native flights', 'DESIGN 2 C02'),
 }
 REASONS_TODO = 'check not built yet (work in progress; see DESIGN.md section 2)'
 
